@@ -140,6 +140,7 @@ func ParseMultiWithRecovery(tokens []token.Token) *RecoveryResult {
 //	defer parser.PutParser(p)
 //	stmts, errs := p.ParseWithRecovery(tokens)
 func (p *Parser) ParseWithRecovery(tokens []token.Token) ([]ast.Statement, []error) {
+	p.positions = nil // no position table for this input; never report an earlier input's
 	return p.parseWithRecovery(tokens)
 }
 
@@ -156,7 +157,6 @@ func (p *Parser) ParseWithRecoveryFromModelTokens(tokens []models.TokenWithSpan)
 // parseWithRecovery is the internal implementation shared by both public APIs.
 func (p *Parser) parseWithRecovery(tokens []token.Token) ([]ast.Statement, []error) {
 	p.tokens = tokens
-	p.positions = nil // no position table for this input; never report an earlier input's
 	p.currentPos = 0
 	if len(tokens) > 0 {
 		p.currentToken = tokens[0]
